@@ -287,7 +287,7 @@ def generate(repo, pid='C01', extra_imports=(), extra_opens=(), extra=None, skip
             opens=['Model.C01'] + list(extra_opens))
     if pid != 'C01':
         # items that only C01's own theorems consume (re-emitters C02 / C03 would carry them without an obligation)
-        skip = tuple(skip) + ('mdft.cache_protocol', 'czt.cache_protocol')
+        skip = tuple(skip) + ('mdft.cache_protocol', 'czt.cache_protocol', 'mdft.key_norm', 'czt.key_norm')
     if skip:
         _item = g.item
 
@@ -795,6 +795,47 @@ def generate(repo, pid='C01', extra_imports=(), extra_opens=(), extra=None, skip
     g.item('czt.cache_protocol', 'prysm/fttools.py:ChirpZTransformExecutor.__init__/_setup_bases/clear/entry points',
            lambda: get_def(ft, 'ChirpZTransformExecutor'), cache_proto('ChirpZTransformExecutor', 'cztProtoGen'),
            f'def cztProtoGen : Proto := {M}.cztProtoRef')
+
+    # =========================================================================== argument forms -> key components
+    def key_norm(fn_name, params, gen_name):
+        def build():
+            fn = get_def(ft, fn_name)
+            rows = []
+            for P in params:
+                bc = False
+                convs = []
+                for n in ast.walk(fn):
+                    if isinstance(n, ast.If) and u(n.test).replace(' ', '') == f'notisinstance({P},Iterable)':
+                        if [u(x).replace(' ', '') for x in n.body] != [f'{P}=({P},{P})'] or n.orelse:
+                            raise Untranslatable(f'scalar {P} is not broadcast to ({P}, {P})')
+                        bc = True
+                    elif isinstance(n, ast.Assign) and len(n.targets) == 1 and u(n.targets[0]) == P:
+                        v = n.value
+                        if u(v).replace(' ', '') == f'({P},{P})':
+                            continue
+                        if isinstance(v, ast.Call) and u(v.func) == 'tuple' and len(v.args) == 1:
+                            a0 = v.args[0]
+                            if u(a0) == P:
+                                convs.append('elem')
+                                continue
+                            if isinstance(a0, ast.GeneratorExp) and len(a0.generators) == 1 and u(a0.generators[0].iter) == P \
+                                    and not a0.generators[0].ifs and isinstance(a0.elt, ast.Call) and len(a0.elt.args) == 1 \
+                                    and u(a0.elt.args[0]) == u(a0.generators[0].target) and u(a0.elt.func) in ('float', 'int'):
+                                convs.append(u(a0.elt.func))
+                                continue
+                        raise Untranslatable(f'{P} re-assigned in an unrecognised way: {u(n)[:70]}')
+                convs = [c for c in convs if c != 'elem'] or ['elem']
+                if len(convs) != 1:
+                    raise Untranslatable(f'{P} converted more than once: {convs}')
+                rows.append(f'⟨"{P}", {"true" if bc else "false"}, "{convs[0]}"⟩')
+            return f'def {gen_name} : List ArgNorm := [{", ".join(rows)}]'
+        return build
+    g.item('mdft.key_norm', 'prysm/fttools.py:MatrixDFTExecutor._key', lambda: get_def(ft, 'MatrixDFTExecutor._key'),
+           key_norm('MatrixDFTExecutor._key', ('Q', 'samples_in', 'samples_out', 'shift'), 'mdftKeyNormGen'),
+           f'def mdftKeyNormGen : List ArgNorm := {M}.mdftKeyNormRef')
+    g.item('czt.key_norm', 'prysm/fttools.py:ChirpZTransformExecutor.czt2', lambda: get_def(ft, 'ChirpZTransformExecutor.czt2'),
+           key_norm('ChirpZTransformExecutor.czt2', ('Q', 'samples_out', 'shift'), 'cztKeyNormGen'),
+           f'def cztKeyNormGen : List ArgNorm := {M}.cztKeyNormRef')
 
     def mdft_wiring():
         sb = get_def(ft, 'MatrixDFTExecutor._setup_bases')
